@@ -260,8 +260,8 @@ ClassViol(cname) ==
 \* ---------------------------------------------------------------- scopes
 SeqToMapVars(s) == [x \in {s[j].n : j \in DOMAIN s} |-> LET d == s[CHOOSE j \in DOMAIN s : s[j].n = x] IN [t |-> IF d.t = <<>> THEN Bot ELSE d.t[1], final |-> d.final, wide |-> Bot]]
 SeqToMapFuns(s) == [x \in {s[j].n : j \in DOMAIN s} |-> s[CHOOSE j \in DOMAIN s : s[j].n = x]]
-GlobalScope(pp) == [kind |-> "Global", cls |-> "", vs |-> SeqToMapVars(Progs[pp].g.vars), fs |-> SeqToMapFuns(Progs[pp].g.funs), tv |-> {}]
-NewScope(kind, cls) == [kind |-> kind, cls |-> cls, vs |-> [x \in {} |-> [t |-> Bot, final |-> TRUE, wide |-> Bot]], fs |-> [x \in {} |-> <<>>], tv |-> {}]
+GlobalScope(pp) == [kind |-> "Global", cls |-> "", vs |-> SeqToMapVars(Progs[pp].g.vars), fs |-> SeqToMapFuns(Progs[pp].g.funs), tv |-> {}, open |-> ""]
+NewScope(kind, cls) == [kind |-> kind, cls |-> cls, vs |-> [x \in {} |-> [t |-> Bot, final |-> TRUE, wide |-> Bot]], fs |-> [x \in {} |-> <<>>], tv |-> {}, open |-> ""]
 
 HasVar(s, x) == x \in DOMAIN s.vs \/ (s.kind = "Class" /\ FieldT(This(s.cls), x) # <<>>)
 VarIn(s, x) == IF x \in DOMAIN s.vs THEN s.vs[x] ELSE LET fd == FieldT(This(s.cls), x)[1] IN [t |-> fd.t, final |-> fd.final, wide |-> Bot]
@@ -361,7 +361,10 @@ Step ==
      CASE e.ev = "Enter" ->
             /\ scopes' = Append(scopes,
                  IF e.kind = "Class" THEN [NewScope("Class", e.name) EXCEPT !.tv = {e.tps[j].n : j \in DOMAIN e.tps}]
-                 ELSE IF e.kind = "Fun" THEN [NewScope(IF "owner" \in DOMAIN e /\ e.owner = "local" THEN "LocalFun" ELSE "Fun", "") EXCEPT !.tv = {e.tps[j].n : j \in DOMAIN e.tps}]
+                 ELSE IF e.kind = "Fun" THEN [NewScope(IF "owner" \in DOMAIN e /\ e.owner = "local" THEN "LocalFun" ELSE "Fun", "") EXCEPT !.tv = {e.tps[j].n : j \in DOMAIN e.tps},
+                                                        \* a function whose return type is not written is "open" while its body is walked: its result type
+                                                        \* is only known once the body is typed, so the body must not depend on it
+                                                        !.open = IF "noret" \in DOMAIN e /\ e.noret THEN e.name ELSE ""]
                  ELSE IF e.kind = "True" /\ e.name # "" THEN [NewScope("True", "") EXCEPT !.vs = (e.name :> [t |-> e.t[1], final |-> TRUE, wide |-> Bot])]
                  ELSE NewScope(e.kind, ""))
             /\ ts' = IF e.kind \in {"Fun", "Lambda", "Block"} THEN Push(ts, Mark) ELSE ts
@@ -488,6 +491,10 @@ Step ==
                                                                                 ELSE Peek(e.nk - gs[q \div 2])]]
                                   ELSE Up(fr.ret[1], m))
                     /\ viol' = viol \cup Chk(Covered(fr, e.argnames, IF e.recv THEN Peek(e.nk) ELSE Bot, e.recv), "ArityAdmitted.Call", e.name)
+                                    \* inference mode: a call (also through a receiver) of a function that is being defined without a written return type
+                                    \* needs the very type that is to be inferred from this body
+                                    \cup (IF Mode = "inference" /\ fr.declared_ret = <<>> /\ \E j \in DOMAIN scopes : scopes[j].open = e.name
+                                          THEN {<<p, i, "ReturnNotInferable.Recursive", e.name, Bot, Bot>>} ELSE {})
                                     \cup Chk(Len(fr.tp) = Len(e.targs), "ArityAdmitted.TypeArgs", e.name)
                                     \cup (IF Len(fr.tp) = Len(e.targs)
                                           THEN UNION {IF fr.tp[j].b # <<>> /\ ~(e.targs[j].k = "W" /\ e.targs[j].n \in {"in", "star"})
